@@ -47,7 +47,7 @@ THEOREMS = ["PyYetiVerif.C06." + n for n in (
     "net_ifltm_is_interface_resultant net_ifltm_units rbe3_normal_reproduces net_ifatm_is_rb_acceleration_of_interface resultant_force_ref_indep cgatm_translation_rows_are_cg_acceleration cgatm_rotation_rows_are_moment_about_offset cgatm_rotation_rows_reference_counterexample cglf_is_weight_normalised cglf_moment_rows_match_shear tsc2lv_blocks mk_net_drms_fields "
     "eigh_spec_charpoly principal_inertias_invariant principal_inertias_ref_indep rotated_mass_blocks principal_gyr_eq eighResid_spec "
     "find_xyz_triples_segs rbScale2_grids rbmultchk_scale_and_coords rbmultchk_flags_nonrigid "
-    "role_after_reorder convert_reorder_commute cbcheck_errors cbcheck_returns_def cbcheck_option_independence cbcheck_no_modal_dof convert_qq_diag_invariant cbcheck_frq_conv_invariant flippv_order_indep reorder_drm_response convert_drm_response convert_drm_roundtrip conv_factors_inverse"
+    "role_after_reorder convert_reorder_commute cbPrepare_cases cbFinish_cases cbcheck_errors cbcheck_emfilt_empty_raises cbcheck_returns_def cbPrepare_option_independence cbFinish_ok cbcheck_option_independence cbcheck_emfilt_independence cbcheck_no_modal_dof convert_qq_diag_invariant cbcheck_frq_conv_invariant flippv_order_indep reorder_drm_response convert_drm_response convert_drm_roundtrip conv_factors_inverse"
 ).split()]
 TRUSTED = [
     "correspondence harness harness/props/c06.py (numeric comparison 1e-9*scale, exact for index vectors / trimmed DOF lists / "
@@ -1960,7 +1960,7 @@ def cbcheck_request(case, uset=None, bseto=None, reorder=None):
 
 def parse_cbcheck_reply(rep, n, nb):
     t = rep.split(" ")
-    if t[0] in ("raise-refpoint", "raise-singular", "raise-usetrows", "raise-notascending"):
+    if t[0] in ("raise-refpoint", "raise-singular", "raise-usetrows", "raise-notascending", "raise-emfilt-empty"):
         return {"chk": t[0]}
     if t[0] not in ("pass", "fail", "single"):
         raise Infra("C06 driver: unexpected cbcheck reply %r" % rep[:80])
@@ -2428,6 +2428,14 @@ def correspondence(ctx):
                 ctx.count("cbcheck:raises-refpoint-zero-stiffness")
             else:
                 ctx.disagree("cbcheck", inp, "exception RuntimeError: %s" % str(e)[:200], mo["chk"])
+            continue
+        except IndexError as e:
+            # the code as it is (new finding, reported by the oracle): a positive em_filt with no mode above it hands an empty
+            # table to writer.vecwrite
+            if mo["chk"] == "raise-emfilt-empty" and "out of bounds for axis 0 with size 0" in str(e):
+                ctx.count("cbcheck:raises-emfilt-empty")
+            else:
+                ctx.disagree("cbcheck", inp, "exception IndexError: %s" % str(e)[:200], mo["chk"])
             continue
         except Exception as e:  # the model has no exception for these inputs
             ctx.disagree("cbcheck", inp, "exception %s: %s" % (type(e).__name__, str(e)[:200]), "a result")
@@ -3076,6 +3084,19 @@ def oracle_cbcheck(spec):
     except Exception as e:
         if _bref_on_pinned(spec) and isinstance(e, RuntimeError) and "zero stiffness" in str(e):
             return out  # documented: a reference DOF without stiffness cannot restrain rigid-body motion
+        if isinstance(e, IndexError) and float(spec.get("em_filt", 0)) > 0 and case["nq"] > 0:
+            try:
+                ok0 = run_cbcheck(dict(case, spec=dict(spec, em_filt=0)))[0]
+                none_above = not np.any(ok0.effmass_percent.values > float(spec["em_filt"]))
+            except Exception:  # noqa: BLE001
+                none_above = False
+            if none_above:
+                # NEW FINDING: the print filter makes cbcheck raise on a valid model when no mode is above it
+                _fail(out, "cbcheck-em_filt-no-mode-above-filter-raises-IndexError", "cbcheck(..., em_filt=x) raises IndexError (writer.vecwrite on an "
+                      "empty effective-mass table) when no fixed-base mode has more than x percent effective mass; with em_filt=0 the "
+                      "same model is checked without complaint", inp, "%s: %s" % (type(e).__name__, str(e)[:120]),
+                      "a report with an empty table (the totals line still sums all modes)")
+                return out
         _fail(out, base + "-raises-" + type(e).__name__, "cbcheck raises on a well-formed model", inp,
               "%s: %s" % (type(e).__name__, str(e)[:200]), "a result")
         return out
@@ -3408,7 +3429,7 @@ def probe_noreorder(seed):
     rng = np.random.default_rng(seed)
     spec = gen_spec(rng)
     spec.update(reorder=False, gridperm=list(range(spec["nbg"])), layout=str(rng.choice(["last", "mixed"])),
-                variant="valid", conv=None)
+                variant="valid", conv=None, em_filt=0)
     if spec["nbg"] == 1 and spec["layout"] == "last" and spec["rbnorm"] is not True:
         spec["rbnorm"] = True
     for f in oracle_cbcheck(spec):
@@ -3470,6 +3491,21 @@ def probe_net_reorder_spec(spec, with_kind=False):
     return (out, kind) if with_kind else out
 
 
+def probe_emfilt(seed):
+    """NEW FINDING cbcheck-em_filt-no-mode-above-filter-raises-IndexError: a positive print filter above every percent
+    effective mass of the model (the docstring's own use: 'to filter out modes below 2%')"""
+    rng = np.random.default_rng(seed)
+    spec = gen_spec(rng)
+    spec.update(variant="valid", reorder=True, conv=None, em_filt=100.5)  # no single mode can have more than 100 percent
+    spec["nq"] = max(1, spec["nq"])
+    out = []
+    for f in oracle_cbcheck(spec):
+        f = dict(f)
+        f["input"] = {"kind": "cbcheck", "spec": spec}
+        out.append(f)
+    return out
+
+
 def probe_nomodes(seed):
     """cbcheck on a Craig-Bampton model with NO retained modes (Guyan reduction only).  New finding: _values_check
     takes np.max of the empty MQQ diagonal -> ValueError, although cbcheck has an explicit branch for nq = 0."""
@@ -3480,7 +3516,7 @@ def probe_nomodes(seed):
         spec["nbg"] += 1
         spec["ngrids"] += 1
         spec["gridperm"] = list(range(spec["nbg"]))
-    spec.update(nq=0, variant="valid", reorder=True)
+    spec.update(nq=0, variant="valid", reorder=True, em_filt=0)
     for f in oracle_cbcheck(spec):
         if "raises-ValueError" in f["family"]:
             f = dict(f, family="cbcheck-no-modal-dof-raises-ValueError")
@@ -3601,6 +3637,10 @@ def search(ctx, hints):
         f, kind = probe_net_reorder([ctx.seed, 98, i])
         fails += f[:1]
         ctx.count("oracle:probe-netdrm-reorder-%s-%s" % (kind, "fails" if f else "holds"))
+    for i in range(ctx.pick(2, 6)):
+        f = probe_emfilt([ctx.seed, 96, i])
+        fails += f[:1]
+        ctx.count("oracle:probe-cbcheck-emfilt-" + ("fails" if f else "holds"))
     for i in range(ctx.pick(3, 12)):
         f = probe_nomodes([ctx.seed, 97, i])
         fails += f[:1]
